@@ -279,6 +279,19 @@ def _memory():
     return m
 
 
+def _memory2():
+    """two write ports, a synchronous read port transparent for the SECOND one only, one not transparent at all"""
+    from amaranth.hdl import Module
+    from amaranth.lib.memory import Memory
+    m = Module()
+    mem = m.submodules.mem = Memory(shape=4, depth=2, init=[1, 2])
+    w0 = mem.write_port()
+    w1 = mem.write_port(granularity=2)
+    mem.read_port(transparent_for=(w1,))
+    mem.read_port()
+    return m
+
+
 def _hier(k):
     from checks import c04
     return c04._hier_designs()[k]()[0]
@@ -294,6 +307,7 @@ def designs(tier):
         ("PulseSynchronizer", _pulse, [("a",), ("b",), ("a", "b")], False),
         ("crc.Processor", _crc, None, False),
         ("Memory", _memory, None, False),
+        ("Memory2", _memory2, None, False),
         ("SyncFIFO", lambda: fifo.SyncFIFO(width=2, depth=3), None, False),
         ("SyncFIFOBuffered", lambda: fifo.SyncFIFOBuffered(width=2, depth=3), None, False),
         ("hier0", lambda: _hier(0), None, False), ("hier1", lambda: _hier(1), None, False), ("hier3", lambda: _hier(3), None, False),
